@@ -61,7 +61,7 @@ DecDigits(b) == IF IsZero(b) THEN <<>> ELSE LET d == D10(b, 1, 0, <<>>) IN Appen
 DecU(b) == IF IsZero(b) THEN <<48>> ELSE DecDigits(b)
 DecS(b) == IF b[1] >= 128 THEN <<45>> \o DecU(Neg2(b)) ELSE DecU(b)
 
-\* ---------------------------------------------------------------- decimals: exactly representable values only
+\* ---------------------------------------------------------------- decimals: a table of values (16 exactly representable, 5 long spellings)
 \* i = integer digits, f = fraction digits without trailing zeros, p32/p64 = IEEE-754 patterns of the value
 FloatTab == <<
   [i |-> <<48>>, f |-> <<>>, p32 |-> <<0, 0, 0, 0>>, p64 |-> <<0, 0, 0, 0, 0, 0, 0, 0>>],
@@ -79,7 +79,14 @@ FloatTab == <<
   [i |-> <<49, 48>>, f |-> <<>>, p32 |-> <<65, 32, 0, 0>>, p64 |-> <<64, 36, 0, 0, 0, 0, 0, 0>>],
   [i |-> <<49, 50>>, f |-> <<53>>, p32 |-> <<65, 72, 0, 0>>, p64 |-> <<64, 41, 0, 0, 0, 0, 0, 0>>],
   [i |-> <<51>>, f |-> <<53>>, p32 |-> <<64, 96, 0, 0>>, p64 |-> <<64, 12, 0, 0, 0, 0, 0, 0>>],
-  [i |-> <<49, 50, 55>>, f |-> <<>>, p32 |-> <<66, 254, 0, 0>>, p64 |-> <<64, 95, 192, 0, 0, 0, 0, 0>>] >>
+  [i |-> <<49, 50, 55>>, f |-> <<>>, p32 |-> <<66, 254, 0, 0>>, p64 |-> <<64, 95, 192, 0, 0, 0, 0, 0>>],
+  \* shortest decimal spellings of values that need many digits; the patterns are the correctly rounded ones
+  \* (computed with strconv.ParseFloat; the decimal is in general not exactly representable)
+  [i |-> <<48>>, f |-> <<48, 48, 48, 48, 48, 48, 48, 48, 48, 48, 48, 48, 57, 48, 57, 52, 57, 52, 55, 48, 49, 55, 55, 50, 57, 50, 56, 50>>, p32 |-> <<43, 128, 0, 0>>, p64 |-> <<61, 112, 0, 0, 0, 0, 0, 0>>],  \* 0.0000000000009094947017729282 = 2^-40 as a double
+  [i |-> <<48>>, f |-> <<48, 48, 48, 48, 48, 48, 48, 48, 48, 48, 52, 51, 54, 53, 53, 55, 52, 54>>, p32 |-> <<46, 64, 0, 0>>, p64 |-> <<61, 200, 0, 0, 2, 231, 137, 9>>],  \* 0.000000000043655746 = 3*2^-36 as a float
+  [i |-> <<49>>, f |-> <<48, 48, 48, 48, 48, 48, 48, 48, 48, 48, 48, 48, 48, 48, 48, 57>>, p32 |-> <<63, 128, 0, 0>>, p64 |-> <<63, 240, 0, 0, 0, 0, 0, 4>>],  \* 1.0000000000000009 = 1+2^-50 as a double
+  [i |-> <<48>>, f |-> <<48, 48, 48, 48, 48, 48, 48, 48, 48, 48, 48, 48, 57, 48, 57, 52, 57, 52, 55>>, p32 |-> <<43, 128, 0, 0>>, p64 |-> <<61, 111, 255, 255, 254, 244, 21, 41>>],  \* 0.0000000000009094947 = 2^-40 as a float
+  [i |-> <<48>>, f |-> <<48, 48, 48, 48, 48, 48, 48, 48, 48, 48, 52, 51, 54, 53, 53, 55, 52, 53, 54, 56, 53, 49, 48, 48, 53, 53, 53>>, p32 |-> <<46, 64, 0, 0>>, p64 |-> <<61, 200, 0, 0, 0, 0, 0, 0>>] >>  \* 0.000000000043655745685100555 = 3*2^-36 as a double
 RECURSIVE StripTZ(_)
 StripTZ(f) == IF f # <<>> /\ f[Len(f)] = 48 THEN StripTZ(SubSeq(f, 1, Len(f) - 1)) ELSE f
 FloatPat(ip, fp, neg, t) ==
